@@ -8,7 +8,7 @@ import common
 
 
 def dispatch(prop):
-    if prop in ("C06", "C07", "C08", "C10", "C11", "C12", "C17", "C18", "C20"):
+    if prop in ("C06", "C07", "C08", "C09", "C10", "C11", "C12", "C17", "C18", "C20"):
         import smc_checks
         return smc_checks.main
     raise SystemExit(f"unknown property {prop}")
